@@ -136,6 +136,18 @@ PROPS["C07"] = {
     "rule": "case = one session history with data steps; distinct_nontrivial counts (|A|,|B|,#NAT,#cuts,restart,payloads-read bucket) classes; counters give writes, eligible and ineligible inbound payloads",
     "assumptions": ["a payload 'parses as STUN' iff stun.IsMessage accepts it"],
 }
+PROPS["C20"] = {
+    "parts": [part("TestVerifC20", q=8, t=16, tq=900)],
+    "level": "exploration",
+    "engine": "E1 simnet",
+    "technique": "reference-model monitor (strict running maximum of delivered nomination values and its pair) evaluated after every delivery in a scripted-peer session, plus a two-agent quiescence oracle (mirror image of the pair that carried the highest delivered value) with the scheduler permuting requests and responses",
+    "level_text": "Controlled agent vs scripted controlling peer: 1-6 nominations with explicit values (increasing, equal, decreasing, 1, 2^24-1) on pairs that are waiting / in progress / succeeded, "
+                  "every delivery order incl. duplicates, responses to the agent's triggered checks withheld and released later (the deferred path). Two agents: RenominateCandidate through the public API on valid pairs, "
+                  "requests and responses reordered, duplicated and lost (lost nominations re-issued). Error clauses for controlled agents and the feature switched off.",
+    "level_note": "Only nominations carrying a value are used here (plain USE-CANDIDATE is C03's). Schedules are sampled.",
+    "rule": "case = one session; distinct_nontrivial counts (#sockets, #nominations, max value) and (|A|,|B|,#renominations,lossy) classes",
+    "assumptions": ["default nomination value generator (1,2,3,...) on the controlling agent"],
+}
 PROPS["C05"] = {
     "parts": [part("TestVerifC05", q=8, t=16, tq=900)],
     "level": "exploration",
